@@ -839,7 +839,7 @@ func (c *Ctx) ringPumpBlock() int64 {
 		}
 		for _, call := range ir.Calls(fn) {
 			callee := call.Common().StaticCallee()
-			if callee == nil || recvNamed(callee) != "buffer" || len(call.Common().Args) < 2 || len(c.calls(callee, "sync", "Cond", "Wait")) == 0 {
+			if callee == nil || recvNamed(callee) != "buffer" || len(call.Common().Args) < 2 || !c.waitsWithin(callee, 2) {
 				continue
 			}
 			if k, ok := call.Common().Args[1].(*ssa.Const); ok && k.Value != nil && k.Value.Kind() == constant.Int {
@@ -850,4 +850,23 @@ func (c *Ctx) ringPumpBlock() int64 {
 		}
 	}
 	return best
+}
+
+// waitsWithin: fn, or a method of the ring it calls within depth d, waits on a condition variable.
+func (c *Ctx) waitsWithin(fn *ssa.Function, d int) bool {
+	if fn == nil || fn.Blocks == nil {
+		return false
+	}
+	if len(c.calls(fn, "sync", "Cond", "Wait")) > 0 {
+		return true
+	}
+	if d == 0 {
+		return false
+	}
+	for _, call := range ir.Calls(fn) {
+		if h := call.Common().StaticCallee(); h != nil && h != fn && recvNamed(h) == "buffer" && c.waitsWithin(h, d-1) {
+			return true
+		}
+	}
+	return false
 }
